@@ -1226,6 +1226,10 @@ class Interp:
             except TypeError:
                 raise AnalysisError(f"builtin {fname} on abstract values "
                                     f"{args!r}")
+        if short == "attrgetter" and len(args) == 1 and isinstance(
+                args[0], str) and args[0].isidentifier() and not kw:
+            fn = ast.parse(f"lambda v: v.{args[0]}", mode="eval").body
+            return self.eval(fn, {})
         if short in ("itemgetter",) and len(args) == 1 and isinstance(
                 args[0], int):
             i_ = args[0]
